@@ -18,7 +18,26 @@ func inst(pkg, fn string, kv ...any) Instance {
 	return in
 }
 
+func aclRedirects() map[string]string {
+	const r = "github.com/gokrazy/rsync/rsyncd."
+	return map[string]string{"net.SplitHostPort": r + "VSplitHostPort", "net.ParseIP": r + "VParseIP", "net.ParseCIDR": r + "VParseCIDR"}
+}
+
 func init() {
+	reg(&Property{
+		ID: "C19",
+		Instances: func(tier string) []Instance {
+			out := []Instance{inst("rsyncd", "HACL", "k", 0), inst("rsyncd", "HACL", "k", 1), inst("rsyncd", "HACL", "k", 2)}
+			if tier == "thorough" {
+				out = append(out, inst("rsyncd", "HACL", "k", 3))
+			}
+			return out
+		},
+		MustReach: []string{"granted", "refused"},
+		Redirects: aclRedirects(),
+		Bounds:    "rule lists of length 0..2 (thorough 3); per rule: allow | deny | unknown action | no space, and all | a network with symbolic family (v4/v6), symbolic address bytes and symbolic prefix length 0..32/0..128 | malformed network text; client address symbolic IPv4, IPv6 (not v4-mapped) or IPv4-mapped IPv6; the real (*net.IPNet).Contains / net.IP.To4 / net.CIDRMask are executed",
+		Outside:   "the text parsers net.SplitHostPort / net.ParseIP / net.ParseCIDR are replaced by stubs with the stated contract in symbolic mode (native replays use the real parsers); rule lists longer than the bound",
+	})
 	reg(&Property{
 		ID: "C02",
 		Instances: func(tier string) []Instance {
